@@ -15,6 +15,50 @@ from util import TensorProduct
 # dictionary keys whose insertion order differs from their sorted order
 KEYS = ["magnetisation", "energy", "correlation", "op10", "op2"]
 
+# order of the two-site terms (= the gate order of one TEBD step) in the "sites" family
+GATE_ORDERS = ["index", "reverse", "evenodd", "shuffle"]
+# first factor of a two-site term (= the site that keeps the isometry when TEBD splits the gate): parent, child, random
+GATE_ORIENTS = ["pc", "cp", "mixed"]
+
+
+def edge_hamiltonian(rng, parents, ids, dims, order, orient, fields):
+    """Nearest-neighbour Hamiltonian on the tree `parents` (node i <-> ids name f"n{i}"): one two-site term on every
+    edge, listed in the given order (node index, reversed, children of even depth first, random) with the parent or
+    the child as first factor, and single-site fields on a random subset of the nodes placed behind / before / between
+    the two-site terms."""
+    nprs = np.random.RandomState(rng.randrange(2 ** 31))
+    conv = util.rand_conv(nprs, dims.values(), 3, True)
+    n = len(parents)
+    depth = [0] * n
+    for i in range(1, n):
+        depth[i] = depth[parents[i]] + 1
+    edges = list(range(1, n))
+    if order == "reverse":
+        edges.reverse()
+    elif order == "evenodd":
+        edges = [i for i in edges if depth[i] % 2 == 0] + [i for i in edges if depth[i] % 2 == 1]
+    elif order == "shuffle":
+        rng.shuffle(edges)
+    two = []
+    for c in edges:
+        a, b = f"n{parents[c]}", f"n{c}"
+        if orient == "cp" or (orient == "mixed" and rng.random() < 0.5):
+            a, b = b, a
+        two.append(TensorProduct({a: f"A{rng.randrange(3)}_{dims[a]}", b: f"A{rng.randrange(3)}_{dims[b]}"}))
+    one = []
+    if fields != "no":
+        for i in rng.sample(range(n), rng.randrange(1, n + 1)):
+            one.append(TensorProduct({f"n{i}": f"A{rng.randrange(3)}_{dims[f'n{i}']}"}))
+    if fields == "before":
+        tps = one + two
+    elif fields == "mixed":
+        tps = list(two)
+        for t in one:
+            tps.insert(rng.randrange(len(tps) + 1), t)
+    else:
+        tps = two + one
+    return util.Hamiltonian([(Fraction(1), "1", tp) for tp in tps], conv, {"1": 1})
+
 
 def state_fingerprint(state):
     """content + identity fingerprint of a caller-owned state object."""
@@ -35,7 +79,11 @@ class C18(Prop):
     design_ref = "DESIGN.md section 5 / C18"
     rule = ("grid cases: (final_time, step, evaluation interval, operator container) from an exhaustive grid incl. quotients "
             "just below/above the 0.1 threshold and 'inf', run with a counting subclass; class cases: every concrete class "
-            "on a small system, run/reset/run. non-trivial = at least one step performed; distinct by case content")
+            "on a small system, run/reset/run; 'sites' class cases: every concrete class on a random 3..5 node tree, a two-site "
+            "term on every edge (+ fields), a single-site observable on every node + one two-site observable, caller state "
+            "not canonical or canonical at any node, for TEBD every (gate order, gate orientation) pair; every class case also "
+            "with the history 'operators asked after every hand-made step'. non-trivial = at least one step performed; "
+            "distinct by case content")
     clauses = [
         ("F", "num_steps: floor/ceil rule with the exact double 0.1, non-negative, unique window characterisation (C18_num_steps_*)"),
         ("F", "run: for interval k>=1 exactly the n/k+1 allocated columns are written, column j after j*k steps with time index j*k; "
@@ -43,6 +91,9 @@ class C18(Prop):
         ("F", "a key addresses the row at its insertion position (C18_result_keys)"),
         ("O", "exact evolution: state at column j is U^(jk) psi, U = expm(-iH dt) (validated numerically against scipy expm of -iH*j*dt)"),
         ("V", "caller-state aliasing, reset and re-run reproducibility on every concrete class: runtime monitor (content+id fingerprints)"),
+        ("V", "every concrete class: the recorded value of every operator (single-site on every node, two-site on an edge) in column j "
+              "equals the dense <psi|O|psi> of the state of an independent instance stepped j*k times by hand; the same when the "
+              "operators are asked after every hand-made step, and asking does not disturb the evolution (validated, not a theorem)"),
     ]
     trusted_base = ["float quotient final_time/time_step_size enters the model as its exact rational value; threshold is the exact value of the double 0.1",
                     "times are compared as the single float product (j*k)*dt computed the same way in the harness"]
@@ -81,6 +132,26 @@ class C18(Prop):
                     cases.append({"kind": "class", "cls": kind, "tree": rng.choice([[None, 0], [None, 0, 0], [None, 0, 1], [None, 0, 0, 1]]),
                                   "nsteps": rng.choice([2, 3, 4]), "k": rng.choice([1, 2, "inf"]), "cont": rng.choice(containers),
                                   "seed": rng.randrange(10 ** 6), "deep": rng.random() < 0.5, "gauge": gauge})
+        # "sites" family: every concrete class on a random tree with 3..5 nodes, a nearest-neighbour Hamiltonian with
+        # one two-site term on EVERY edge (+ single-site fields), a single-site observable on EVERY node (+ one
+        # two-site observable), the caller's state not canonical or canonical at ANY node.  For TEBD the order of the
+        # terms is the gate order of a step (a configuration only that class has), so it gets one case per
+        # (order, orientation) pair.
+        for rep in range(nrep):
+            for kind in kinds:
+                if kind == "tebd":
+                    confs = [(o, d) for o in GATE_ORDERS for d in GATE_ORIENTS] * ctx.scale(2, 4)
+                else:
+                    confs = [(rng.choice(GATE_ORDERS), rng.choice(GATE_ORIENTS))]
+                for order, orient in confs:
+                    nn = rng.choice([3, 3, 4, 4, 5]) if kind in ("tebd", "exact") else rng.choice([3, 3, 4])
+                    cases.append({"kind": "class", "family": "sites", "cls": kind, "tree": util.random_parents(rng, nn),
+                                  "nsteps": rng.choice([2, 3, 4]), "k": rng.choice([1, 2, "inf"]),
+                                  "cont": rng.choice(["list", "dict"] * 4 + ["single"]),
+                                  "seed": rng.randrange(10 ** 6), "deep": rng.random() < 0.5,
+                                  "gauge": rng.choice(["none"] + ["node"] * 7), "centre": rng.randrange(nn),
+                                  "order": order, "orient": orient,
+                                  "fields": rng.choice(["after", "before", "mixed", "no"])})
         return cases
 
     def nontrivial(self, case):
@@ -93,6 +164,10 @@ class C18(Prop):
         c = Counter()
         for x in cases:
             c[x["kind"] + ":" + str(x.get("cls", x.get("cont")))] += 1
+            if x.get("family") == "sites":
+                c["sites:" + x["cls"]] += 1
+                c["sites:gauge:" + x["gauge"]] += 1
+                c["sites:order:" + x["order"]] += 1
             c["k:" + str(x["k"])] += 1
         return dict(c)
 
@@ -149,48 +224,63 @@ class C18(Prop):
         ttns = util.build_ttns(rng, par, phys=[2] * n, bond=2)
         ids = sorted(ttns.nodes)
         dims = util.phys_dims(ttns)
-        ham = util.rand_ham(rng, ids, dims, 3, hermitian=True, max_support=2)
-        # nearest-neighbour / single-site only so TEBD accepts it
-        terms = []
-        for fr, g, tp in ham.terms:
-            keys = list(tp.keys())
-            if len(keys) == 2 and keys[1] not in ttns.nodes[keys[0]].neighbouring_nodes():
-                continue
-            terms.append((fr, g, tp))
-        if not terms:
-            terms = [(Fraction(1), "1", TensorProduct({ids[0]: f"A0_{dims[ids[0]]}"}))]
-        ham = util.Hamiltonian(terms, ham.conversion_dictionary, ham.coeffs_mapping)
+        sites = case.get("family") == "sites"
+        if sites:
+            ham = edge_hamiltonian(rng, par, ids, dims, case["order"], case["orient"], case["fields"])
+        else:
+            ham = util.rand_ham(rng, ids, dims, 3, hermitian=True, max_support=2)
+            # nearest-neighbour / single-site only so TEBD accepts it
+            terms = []
+            for fr, g, tp in ham.terms:
+                keys = list(tp.keys())
+                if len(keys) == 2 and keys[1] not in ttns.nodes[keys[0]].neighbouring_nodes():
+                    continue
+                terms.append((fr, g, tp))
+            if not terms:
+                terms = [(Fraction(1), "1", TensorProduct({ids[0]: f"A0_{dims[ids[0]]}"}))]
+            ham = util.Hamiltonian(terms, ham.conversion_dictionary, ham.coeffs_mapping)
         H = util.dense_ham(ham, ids, dims)
         # gauge of the caller's state: not canonical, canonical at the first node of the TDVP sweep
         # (the gauge an earlier TDVP run leaves behind), at a random node, or at the root
         gauge = case.get("gauge", "none")
-        if gauge != "none":
+        if gauge == "node":
+            ttns.canonical_form(f"n{case['centre']}", mode=rng.choice([util.ptn.SplitMode.REDUCED, util.ptn.SplitMode.KEEP]))
+        elif gauge != "none":
             from pytreenet.time_evolution.time_evo_util.update_path import TDVPUpdatePathFinder
             centre = {"start": TDVPUpdatePathFinder(ttns).find_path()[0], "random": rng.choice(ids), "root": ttns.root_id}[gauge]
             ttns.canonical_form(centre, mode=rng.choice([util.ptn.SplitMode.REDUCED, util.ptn.SplitMode.KEEP]))
         nprs = np.random.RandomState(case["seed"])
-        opm = {}
-        for j in range(2):
-            a = nprs.standard_normal((2, 2)) + 1j * nprs.standard_normal((2, 2))
-            opm[["zz_first", "aa_second"][j]] = (ids[j % n], a)
+        opm = {}    # key -> {node id: matrix}
+        if sites:
+            # a single-site observable on every node and a two-site observable on one edge, in a random order
+            named = [(f"site_{i}", [i]) for i in ids]
+            c = rng.randrange(1, n)
+            named.append(("pair", [f"n{par[c]}", f"n{c}"]))
+            rng.shuffle(named)
+            for key, where in named:
+                opm[key] = {i: nprs.standard_normal((2, 2)) + 1j * nprs.standard_normal((2, 2)) for i in where}
+        else:
+            for j in range(2):
+                a = nprs.standard_normal((2, 2)) + 1j * nprs.standard_normal((2, 2))
+                opm[["zz_first", "aa_second"][j]] = {ids[j % n]: a}
         ob = {"nsteps": nsteps, "k": k}
         if case["cls"] == "exact":
             from pytreenet.time_evolution.exact_time_evolution import ExactTimeEvolution
             psi0 = util.dense_vec(ttns, ids)
-            dense_ops = {key: util.dense_tp({i: a}, ids, dims) for key, (i, a) in opm.items()}
+            dense_ops = {key: util.dense_tp(tp, ids, dims) for key, tp in opm.items()}
             ops = self._container(case["cont"], dense_ops)
             caller = psi0.copy()
             fp0 = state_fingerprint(caller)[:2]
             ev = ExactTimeEvolution(caller, H, dt, T, ops)
         else:
             ttno = util.TTNO.from_hamiltonian(copy.deepcopy(ham), ttns)
-            tps = {key: TensorProduct({i: a}) for key, (i, a) in opm.items()}
+            tps = {key: TensorProduct(dict(tp)) for key, tp in opm.items()}
             ops = self._container(case["cont"], tps)
             caller = ttns
             fp0 = state_fingerprint(caller)[:3]
             bk = {"deep": case["deep"]} if case["cls"] in ("bug", "fbug") else None
             ev = util.make_evolution(case["cls"], caller, ham, ttno, dt, T, ops, bug_kwargs=bk)
-            dense_ops = {key: util.dense_tp({i: a}, ids, dims) for key, (i, a) in opm.items()}
+            dense_ops = {key: util.dense_tp(tp, ids, dims) for key, tp in opm.items()}
         ob["n"] = ev.num_time_steps
         ev.run(evaluation_time=k, pgbar=False)
         res1 = np.array(ev.results)
@@ -231,6 +321,28 @@ class C18(Prop):
             manual.append([complex(np.vdot(v, dense_ops[key] @ v)) for key in keys])
         ob["exact_dev"] = exact_dev
         ob["manual"] = manual
+        # history "measure between steps": a third instance, stepped by hand, is asked for every operator after EVERY
+        # step (whatever the interval); each answer has to be <psi_s|O|psi_s> of its own state after s steps, and
+        # asking must not disturb the evolution (same final state as the instance that was not asked).
+        if case["cls"] == "exact":
+            ev3 = type(ev)(psi0.copy(), H, dt, T, ops)
+        else:
+            ev3 = util.make_evolution(case["cls"], caller, ham, ttno, dt, T, ops, bug_kwargs=bk)
+        between = None
+        for s in range(steps_at[-1] + 1):
+            if s:
+                ev3.run_one_time_step()
+            got = [complex(ev3.evaluate_operator(op)) for op in ev3.operators]
+            v3 = ev3.state if case["cls"] == "exact" else util.dense_vec(ev3.state, ids)
+            want = [complex(np.vdot(v3, dense_ops[key] @ v3)) for key in keys]
+            for key, g, w in zip(keys, got, want):
+                if between is None and not np.isclose(g, w, atol=1e-8, rtol=1e-5):
+                    between = [s, key, g, w]
+        ob["between"] = between
+        vlast = ev2.state if case["cls"] == "exact" else util.dense_vec(ev2.state, ids)
+        ob["between_disturbs"] = float(np.max(np.abs(v3 - vlast))) / max(1.0, float(np.max(np.abs(vlast))))
+        ob["keys"] = list(keys)
+        ob["steps_at"] = list(steps_at)
         ob["recorded"] = [[complex(res1[r, j]) for r in range(len(keys))] for j in range(res1.shape[1])]
         if case["cont"] == "dict":
             ob["bykey_ok"] = all(np.array_equal(ev.operator_result(key), res2[r]) for r, key in enumerate(ops))
@@ -353,8 +465,20 @@ class C18(Prop):
             return f"{case['cls']}: times {ob['times']}"
         rec = np.array(ob["recorded"])
         man = np.array(ob["manual"])
-        if rec.shape != man.shape or not np.allclose(rec, man, atol=1e-8):
-            return f"{case['cls']}: recorded values differ from the state after exactly j*k steps"
+        if rec.shape != man.shape:
+            return f"{case['cls']}: record of shape {rec.shape}, expected {man.shape}"
+        if not np.allclose(rec, man, atol=1e-8):
+            j, r = [int(x) for x in np.argwhere(~np.isclose(rec, man, atol=1e-8, rtol=1e-5))[0]]
+            name = ob["keys"][r] if "keys" in ob else f"operator {r}"
+            after = ob["steps_at"][j] if "steps_at" in ob else "j*k"
+            return (f"{case['cls']}: recorded values differ from the state after exactly j*k steps: '{name}' in column {j} "
+                    f"is {rec[j, r]:.9g}, <psi|O|psi> of the state after {after} steps is {man[j, r]:.9g}")
+        if ob.get("between"):
+            s, key, g, w = ob["between"]
+            return (f"{case['cls']}: asked after {s} hand-made steps, the driver evaluates '{key}' to {g:.9g}, "
+                    f"<psi|O|psi> of its state is {w:.9g}")
+        if ob.get("between_disturbs", 0.0) > 1e-8:
+            return f"{case['cls']}: evaluating the operators between the steps changes the evolved state ({ob['between_disturbs']:.3g})"
         if ob["exact_dev"] > 1e-9:
             return f"exact evolution deviates from expm(-iH j dt) psi by {ob['exact_dev']}"
         if case["cont"] == "dict" and not ob.get("bykey_ok", True):
